@@ -513,3 +513,7 @@ mod tests {
         );
     }
 }
+
+#[cfg(maidsafe_safe_network_verif)]
+#[path = "verif/replication_fetcher.rs"]
+pub mod verif;
